@@ -117,6 +117,39 @@ func TestMakeSeeds(t *testing.T) {
 		s.block()
 		write(t, dir, "kf-feeoption-read-from-check-state.json", s.tr)
 	}
+	// 2b. open finding: the fee-option update function (action/govUpdate.go feeOptionminFeeDecimal) calls
+	// ctx.FeePool.SetupOpt on the process-wide fee store also on the CheckTx path. A config-update proposal
+	// raising the minimum fee has passed (finalisation is due at the end of block 5); PROPOSAL_FINALIZE is
+	// checked right after BeginBlock(5); the SEND delivered next in block 5 is rejected on that replica only.
+	{
+		s := newSeed("kf-feeopt-mid", 1)
+		id := txgen.ProposalID("kf2b")
+		s.block(s.create(id, governance.ProposalTypeConfigUpdate, "feeOption.minFeeDecimal:8"), s.fund(id))
+		s.block(s.vote(id, 0))
+		u := s.g.U.Users[5]
+		s.check("after-begin", txgen.ProposalFinalize(u, id, u.Addr, fee, s.memo()))
+		a, b := s.g.U.Users[2], s.g.U.Users[3]
+		s.block(txgen.Send(a, a.Addr, b.Addr, txgen.Amt("OLT", big.NewInt(1000)), fee, s.memo()))
+		s.block()
+		write(t, dir, "kf-checked-finalize-sets-fee-option.json", s.tr)
+	}
+	// 2c. regression shape that must pass: CheckTx of a valid SEND that is never delivered, then a block carrying a
+	// twin with the same RawTx and a tampered signature; both replicas must reject the twin.
+	{
+		s := newSeed("ok-forged", 1)
+		a, b := s.g.U.Users[2], s.g.U.Users[3]
+		orig := txgen.Send(a, a.Addr, b.Addr, txgen.Amt("OLT", big.NewInt(1000)), fee, s.memo())
+		for how := 0; how < 3; how++ {
+			twin, ok := forge(orig, how, s.g.U.Users[0])
+			if !ok {
+				t.Fatal("cannot forge")
+			}
+			s.check("before-begin", orig)
+			s.block(twin)
+		}
+		s.block()
+		write(t, dir, "seed-forged-twin-after-checked-original.json", s.tr)
+	}
 	// 3. regression shape that must pass: the vote that completes the proposal is checked (as every
 	// transaction is) right before the block that carries it. (Keys that exist only in the check
 	// state's cache are not iterated, so BeginBlock does not see the proposal as passed.)
